@@ -25,6 +25,7 @@ import (
 	"net/http"
 	"net/http/httptest"
 	"os"
+	"reflect"
 	"runtime"
 	"sort"
 	"strconv"
@@ -34,6 +35,7 @@ import (
 	"testing"
 	"testing/synctest"
 	"time"
+	"unsafe"
 
 	"github.com/apache/arrow-go/v18/arrow"
 	"github.com/apache/arrow-go/v18/arrow/ipc"
@@ -197,6 +199,8 @@ type world struct {
 	allSt   []*sessState
 	stMu    sync.Mutex
 	leaked  bool
+	drained bool
+	entries sync.Map // hex session id -> *sessionEntry (as any), seen at the resume/delete hooks
 	prepErr error
 	notes   []string
 }
@@ -323,6 +327,12 @@ var gatePoints = map[string]bool{
 }
 
 func (w *world) hook(point string, args ...any) {
+	switch point {
+	case "sticky.resume.got", "sticky.delete.got", "sticky.resume.locked", "sticky.delete.locked":
+		if len(args) > 1 {
+			w.entries.Store(fmt.Sprintf("%x", args[1]), args[0])
+		}
+	}
 	if !gatePoints[point] && point != "sticky.resume.locked" {
 		return
 	}
@@ -761,8 +771,17 @@ type stepper struct {
 
 var hooksPresent bool
 var hooksAbsentReported atomic.Bool
+var deadReported atomic.Bool
 
 func (s *stepper) Begin(b replay.Behaviour, rng *rand.Rand) error {
+	if leakedAny.Load() {
+		// a goroutine blocked on a mutex inside the bubble stops virtual time for good
+		if deadReported.Swap(true) {
+			return fmt.Errorf("virtual time is dead (see first error)")
+		}
+		return fmt.Errorf("a goroutine of an earlier behaviour is blocked for good inside the code under test " +
+			"(reported there): virtual time cannot advance any more, the remaining behaviours of this shard are not replayed")
+	}
 	w := &world{rng: rng}
 	w.gated.Store(hooksPresent)
 	if err := w.build(b[0].Args); err != nil {
@@ -785,13 +804,16 @@ func (s *stepper) Begin(b replay.Behaviour, rng *rand.Rand) error {
 	return nil
 }
 
-func (s *stepper) End() {
+// drain lets every goroutine in flight run to completion (no gate parks any more) and returns
+// the actors that cannot: they are blocked for good inside the code under test.
+func (s *stepper) drain() []int {
 	w := s.w
-	if w == nil {
-		return
+	stuck := []int{}
+	if w.drained {
+		return stuck
 	}
-	// let every parked goroutine run to completion
-	w.gated.Store(false) // gates reached from now on do not park (only read by goroutines after a hand-off)
+	w.drained = true
+	w.gated.Store(false)
 	for _, th := range w.all {
 		if !th.launched || th.finished {
 			continue
@@ -806,12 +828,6 @@ func (s *stepper) End() {
 	var pendingThr []*thr
 	for _, th := range w.all {
 		if !th.launched || th.finished {
-			continue
-		}
-		if th.stuck {
-			// already reported as blocked for good inside the code under test
-			w.leaked = true
-			leakedAny.Store(true)
 			continue
 		}
 		pendingThr = append(pendingThr, th)
@@ -837,16 +853,43 @@ func (s *stepper) End() {
 			}
 		}(th)
 	}
+	bound := endBound
+	for _, th := range pendingThr {
+		if th.stuck { // already seen blocked for arriveBound: no need to wait that long again
+			bound = 2 * time.Second
+		}
+	}
 	select {
 	case <-allGone:
 		for _, th := range pendingThr {
 			th.finished = true
 		}
-	case <-realAfter(endBound):
-		w.leaked = true
-		leakedAny.Store(true)
-		fmt.Fprintf(os.Stderr, "sticky driver: %d goroutine(s) did not finish at tear-down; behaviour tail %v\n", left.Load(), tailOf(s.b))
+	case <-realAfter(bound):
+		for _, th := range pendingThr {
+			select {
+			case <-th.done:
+				th.finished = true
+			default:
+				th.stuck = true
+				stuck = append(stuck, th.id)
+			}
+		}
+		sort.Ints(stuck)
+		if len(stuck) > 0 {
+			w.leaked = true
+			leakedAny.Store(true)
+			fmt.Fprintf(os.Stderr, "sticky driver: goroutine(s) of actor(s) %v blocked for good inside the code under test; behaviour tail %v\n", stuck, tailOf(s.b))
+		}
 	}
+	return stuck
+}
+
+func (s *stepper) End() {
+	w := s.w
+	if w == nil {
+		return
+	}
+	s.drain()
 	for _, wk := range w.workers {
 		done := make(chan struct{})
 		go func() { wk.dh.Shutdown(); close(done) }()
@@ -1365,22 +1408,66 @@ func (s *stepper) Step(i int, st replay.Step) (replay.Obs, error) {
 	} else {
 		obs["__skip__"] = true
 	}
+	stuck := []int{}
+	for _, t := range w.all {
+		if t.stuck {
+			stuck = append(stuck, t.id)
+		}
+	}
+	if i == len(s.b)-1 && w.gated.Load() {
+		// the schedule ends here: whatever is in flight must be able to complete
+		stuck = append(stuck, s.drain()...)
+	}
+	sort.Ints(stuck)
+	obs["stuck"] = stuck
 	return obs, nil
 }
 
-// lockedSlots probes the per-session lock of every live entry (TryLock): the slots that are held.
+// entryMutex reaches the per-session mutex of a *sessionEntry handed to a hook.  The entry may
+// have left the registry map (its lock can still be held, or leaked), so the registry-side probe
+// VerifStickyLocked cannot see it.
+func entryMutex(x any) *sync.Mutex {
+	v := reflect.ValueOf(x)
+	if v.Kind() != reflect.Ptr || v.IsNil() || v.Elem().Kind() != reflect.Struct {
+		return nil
+	}
+	f := v.Elem().FieldByName("lock")
+	if !f.IsValid() || !f.CanAddr() || f.Type() != reflect.TypeOf(sync.Mutex{}) {
+		return nil
+	}
+	return (*sync.Mutex)(unsafe.Pointer(f.UnsafeAddr()))
+}
+
+// lockedSlots probes (TryLock) the per-session lock of every live entry and of every entry a
+// request has ever resolved: the slots whose lock is held right now.
 func (w *world) lockedSlots() []int {
-	locked := []int{}
+	held := map[int]bool{}
+	slotOf := func(id string) int {
+		for slot, sid := range w.sidOf {
+			if sid == id {
+				return slot
+			}
+		}
+		return -1
+	}
 	for _, wk := range w.workers {
 		for _, id := range vgirpc.VerifStickyLocked(wk.h) {
-			s := -1
-			for slot, sid := range w.sidOf {
-				if sid == id {
-					s = slot
-				}
-			}
-			locked = append(locked, s)
+			held[slotOf(id)] = true
 		}
+	}
+	w.entries.Range(func(k, v any) bool {
+		if mu := entryMutex(v); mu != nil {
+			if mu.TryLock() {
+				mu.Unlock()
+			} else {
+				held[slotOf(k.(string))] = true
+			}
+		}
+		return true
+	})
+	locked := []int{}
+	for s := range held {
+		locked = append(locked, s)
 	}
 	sort.Ints(locked)
 	return locked
@@ -1442,9 +1529,11 @@ func TestReplay(t *testing.T) {
 		}
 		replay.Run(t, "Sticky", func() replay.Stepper { return &stepper{} })
 		if leakedAny.Load() {
-			// a goroutine is blocked for good inside the code under test (already reported as an
-			// observation); the bubble could never end
-			os.Exit(3)
+			// A goroutine is blocked for good inside the code under test (reported as an
+			// observation of the behaviour in which it happened); the bubble could never end and
+			// synctest would turn a finished, reported run into a crash.  The report is written.
+			os.Stdout.Sync()
+			os.Exit(0)
 		}
 	})
 }
